@@ -184,7 +184,7 @@ META["C09"] = {
 
 META["C15"] = {
     "title": "finalize runs its callback exactly once per subscription",
-    "rule": "cases = (0-2 upstream operators incl. early-terminating ones, hot Subject or stashed create() handle as source, finalize | finalize_threads directly above the probe, history of length <= 6 quick / <= 10 thorough over item / complete / error / unsubscribe (terminals repeated through cloned handles), plain unsubscribe or guard drop). Non-trivial: the history contains at least two terminating triggers (e.g. complete then unsubscribe); distinct = hash(case). first_trigger_* counters show which event ended the subscriptions. The racing-thread part (terminating thread vs unsubscribing thread) runs under the baton scheduler (thread_* counters).",
+    "rule": "cases = (0-2 upstream operators incl. early-terminating ones, hot Subject or stashed create() handle as source, finalize | finalize_threads directly above the probe, history of length <= 6 quick / <= 10 thorough over item / complete / error / unsubscribe (terminals repeated through cloned handles), plain unsubscribe or guard drop). Non-trivial: the history contains at least two terminating triggers (e.g. complete then unsubscribe); distinct = hash(case). first_trigger_* counters show which event ended the subscriptions. Exhaustively, every history of length <= 4 quick / <= 5 thorough over item / unsubscribe(k<3) / complete / error on THREE subscriptions made from clones of one finalize(..) / finalize_threads(..) value over one hot subject: after every step the number of callback runs equals the number of subscriptions that have ended (counter histories_over_cloned_finalize_values). The racing-thread part (terminating thread vs unsubscribing thread) runs under the baton scheduler (thread_* counters).",
     "assumptions": COMMON_ASSUME + [
         "finalize is placed last, so 'the subscription is completed / failed' is exactly 'the probe saw the terminal'",
         "'right after' = before the next step of the history begins, and for an unsubscription before unsubscribe() returns",
@@ -193,7 +193,7 @@ META["C15"] = {
     "level_text": "Exploration over sampled histories; counter == 1 exactly after the first trigger, never before, never again.",
     "level_note": "Trusted: probe and log stamps of the harness.",
     "design_ref": "DESIGN.md §5 C15",
-    "require": {"quick": {"first_trigger_unsub": 5000, "first_trigger_error": 5000}, "thorough": {"first_trigger_unsub": 5000}},
+    "require": {"quick": {"first_trigger_unsub": 5000, "first_trigger_error": 5000, "histories_over_cloned_finalize_values": 3000}, "thorough": {"first_trigger_unsub": 5000, "histories_over_cloned_finalize_values": 18000}},
 }
 
 META["C20"] = {
